@@ -278,6 +278,19 @@ impl Problem {
                                 Component::Y => center.y,
                             };
                             constraints.push(Constraint::Fixed(id, *value));
+                        } else if let Some(arc_id) =
+                            self.inner_arcs.iter().position(|p| p.0 == circle_label)
+                        {
+                            let center = initial_guesses.arc_ids(arc_id).center;
+                            let id = match component {
+                                Component::X => center.x,
+                                Component::Y => center.y,
+                            };
+                            constraints.push(Constraint::Fixed(id, *value));
+                        } else {
+                            return Err(TextualError::UndefinedPoint {
+                                label: point.0.clone(),
+                            });
                         }
                     } else {
                         return Err(TextualError::UndefinedPoint {
